@@ -140,6 +140,7 @@ void check_level_structure(const string &dir, const std::vector<SstFile> &files,
       if (v[i].hi >= v[i - 1].lo) { violation("C14", "age_order", "%s: user key %s: table %llu (older position) holds sequence %llu which is not older than sequence %llu in table %llu (newer position)", why, printable(pk.first).c_str(), (unsigned long long)v[i].file, (unsigned long long)v[i].hi, (unsigned long long)v[i - 1].lo, (unsigned long long)v[i - 1].file); return; }
   }
   count("tables_cross_checked", files.size());
+  { uint64_t per[7] = {0}, h = 17; for (auto &f : files) if (f.level >= 0 && f.level < 7) per[f.level]++; for (int l = 0; l < 7; l++) h = mix64(h, per[l]); g_out->shapes.insert(h); }
 }
 
 // ------------------------------------------------------------------ C17
